@@ -278,8 +278,11 @@ pub fn c14(v: &View) -> Vec<Violation> {
                 let mut members: Vec<usize> = p.clone();
                 members.push(e.x);
                 for a in members {
-                    let name = format!("{}(#{})", v.actors[a].ty, v.actors[a].id);
-                    if !msg.contains(&name) {
+                    // "naming the cycle": every participant must be identifiable in the message;
+                    // only the id is required, not a particular rendering of the identity
+                    let name = format!("#{}", v.actors[a].id);
+                    let named = msg.match_indices(&name).any(|(i, _)| !msg[i + name.len()..].starts_with(|c: char| c.is_ascii_digit()));
+                    if !named {
                         out.push(viol("C14", "cycle-message-incomplete", format!("deadlock panic for the ask {}->{} does not name participant {name}: {msg}", e.x, e.y)));
                     }
                 }
